@@ -56,13 +56,16 @@ def join(a, b):
 
 
 class Intervals:
-    def __init__(self, fa, prog=None, assume=None):
+    def __init__(self, fa, prog=None, assume=None, use_asserts=True):
         self.fa = fa
         self.prog = prog
         register(fa.fn)
         self.memo = {}
         self.inprog = set()
         self.gfacts = {}
+        # use_asserts=False: only explicit branches count as facts (used by rules that ask which values the code
+        # ACCEPTS, where a passed overflow assert must not be mistaken for a range check)
+        self.use_asserts = use_asserts
         # externally justified facts (function preconditions / object invariants), each backed by a named rule
         self.assume = assume if isinstance(assume, dict) else {}
         self.assume_fn = assume if callable(assume) else None
@@ -123,6 +126,8 @@ class Intervals:
         if r is None:
             r = []
             for g in self.fa.guards(b):
+                if g[4] == "assert" and not self.use_asserts:
+                    continue
                 fc = fact_of_guard(g)
                 if fc[0] in ("Lt", "Le", "Gt", "Ge", "Eq", "Ne"):
                     c = canon_le(fc)
@@ -333,6 +338,9 @@ class Intervals:
         if deltas:
             if acc[0] > acc[1] or rng is None:
                 return rng
+            bc = self._bit_counter(t, deltas, depth)
+            if bc is not None:
+                return meet((acc[0], acc[1] + bc), rng)
             import looptools
             h = t.args[2]
             body = fa.fn.loops().get(h)
@@ -355,6 +363,47 @@ class Intervals:
                 hi += dhi * tb
             return meet((lo, hi), rng)
         return acc
+
+    def _bit_counter(self, t, deltas, depth):
+        """Distinct-bit counter idiom:  if mask & (1 << id) == 0 { mask |= 1 << id; counter += 1 }
+        The counter is incremented at most once per bit position, so it grows by at most (#positions id can take).
+        Requirements checked: single delta of exactly 1; its block is dominated by Eq(BitAnd(M, S), 0) with S = 1 << id;
+        on every path through that block the mask M (a phi accumulator) is OR-ed with a 1 << id of the same id."""
+        if len(deltas) != 1:
+            return None
+        pb, d = deltas[0]
+        if not (is_const(d) and const_val(d) == 1):
+            return None
+        fa = self.fa
+        # the increment's own block: the Add term is defined where the guard holds; use the guards of pb and its dominators
+        for g in fa.guards(pb):
+            fc = fact_of_guard(g)
+            if fc[0] == "Eq" and is_const(fc[2]) and const_val(fc[2]) == 0 and fc[1].op == "bin" and fc[1].args[0] == "BitAnd":
+                for M, S in ((fc[1].args[1], fc[1].args[2]), (fc[1].args[2], fc[1].args[1])):
+                    if M.op == "phi" and M.args[2] == t.args[2] and S.op == "bin" and S.args[0] == "Shl" and is_const(S.args[1]) and const_val(S.args[1]) == 1:
+                        idt = S.args[2]
+                        # M's update along the same path: BitOr(M, Shl(1, idt))
+                        upd = False
+                        for qb, w in fa.phi_operands(M):
+                            st = [w]
+                            seen = set()
+                            while st:
+                                x = st.pop()
+                                if x in seen:
+                                    continue
+                                seen.add(x)
+                                if x.op == "phi" and x is not M:
+                                    st.extend(v for _, v in fa.phi_operands(x))
+                                elif x.op == "bin" and x.args[0] == "BitOr" and (x.args[1] is M or x.args[2] is M):
+                                    o = x.args[2] if x.args[1] is M else x.args[1]
+                                    if o.op == "bin" and o.args[0] == "Shl" and is_const(o.args[1]) and const_val(o.args[1]) == 1 and o.args[2] is idt:
+                                        upd = True
+                        if not upd:
+                            continue
+                        ii = self.interval(idt, pb, depth + 1)
+                        if ii is not None and ii[0] >= 0 and ii[1] - ii[0] < 4096:
+                            return ii[1] - ii[0] + 1
+        return None
 
     def _delta_of(self, v, t, pb, depth):
         """If v == t: 'self'.  If v == t + d or a phi over such values: list of (block, delta term) (0 deltas omitted)."""
